@@ -112,6 +112,26 @@ def run(ctx) -> None:
         if f.module.name in ENGINES and any(s.effect == "FS_WRITE" for s in effects.sites[fq]):
             roots.append(fq)
     ctx.floor("R1", "rewrite entry points called from cli._update", len(set(roots)), 2)
+    # ... and nothing that can fail on the user's input is left for after the rewrite: a message template (`{placeholder}` text from
+    # the configuration or the command line) is rendered before the files are touched - a KeyError after the rewrite leaves
+    # changed files behind an exit status 1
+    ucfg_ = cfgs.get(upd.fq)
+    rw_nodes = [ucfg_.node_containing(c_) for r_ in sorted(set(roots)) for c_ in shapes.find_calls(prog, upd, r_)]
+    after_rw: T.Set[int] = set()
+    for nid_ in rw_nodes:
+        if nid_ is not None:
+            after_rw |= ucfg_.reachable(start=nid_)
+    for nid_ in sorted(after_rw):
+        nd_ = ucfg_.nodes[nid_]
+        if nd_.ast is None:
+            continue
+        for c_ in ast.walk(nd_.ast):
+            if isinstance(c_, ast.Call) and isinstance(c_.func, ast.Attribute) and c_.func.attr in ("format", "format_map") and not isinstance(c_.func.value, ast.Constant) \
+                    and (any(k.arg is None for k in c_.keywords) or c_.func.attr == "format_map"):
+                ctx.bad("R1", "cli._update: a message template is rendered after the files were rewritten",
+                        f"`{unparse(c_)[:70]}` (L{c_.lineno}) runs after the rewrite: an unknown placeholder in commit_message / tag_message raises KeyError when the files are already "
+                        f"changed - exit status 1 with a modified project", loc=upd.loc(c_), witness={"commit_message": "bump {old_version} -> {new_versoin}"},
+                        what="cli._update: templates are rendered before the rewrite")
     n_before = len(ctx.obligations)
     _order_rule(ctx, "cli._update", 0, seen)
     for r in sorted(set(roots)):
